@@ -74,6 +74,22 @@ def obs_call(case):
                         sh = _shape(c)
                         for k, v in sh.items():
                             o[k] = min(o[k], v)
+            elif entry == "zip":
+                # two candidate streams consumed alternately (a caller comparing two inputs side by side): neither may raise
+                g1 = qa.CTP.ctparse_gen(case["text"], ts, **kw)
+                g2 = qa.CTP.ctparse_gen(case.get("other", "tomorrow 8pm"), ts, **kw)
+                live = [g1, g2]
+                while live:
+                    for g in list(live):
+                        try:
+                            c = next(g)
+                        except StopIteration:
+                            live.remove(g)
+                            continue
+                        if c is not None:
+                            sh = _shape(c)
+                            for k, v in sh.items():
+                                o[k] = min(o[k], v)
             else:
                 g = qa.CTP.ctparse_gen(case["text"], ts, **kw)
                 for c in g:
@@ -154,7 +170,9 @@ def run(ctx):
             if depth == 0 and (nm > 8 or ns > 30):
                 depth = 10
             cases.append({"text": t, "ts": rnd.choice(tss), "latent": latent, "depth": depth, "rel": rel, "scorer": scorer,
-                          "seed": i, "entries": ["single", "gen"] + (["debug"] if i % 5 == 0 else []), "label": "opts",
+                          "seed": i, "entries": ["single", "gen"] + (["debug"] if i % 5 == 0 else []) + (["zip"] if i % 4 == 1 else []),
+                          "other": texts[(i * 7 + 3) % len(texts)] if engine.text_size(texts[(i * 7 + 3) % len(texts)])[1] <= 30 else "tomorrow 8pm",
+                          "label": "opts",
                           "form": "%s/d%d" % (scorer, depth)})
     # weekday + day of month: the next such date can be more than a year away (every weekday x days 28-31 x all reference times)
     for wd in ("monday", "tuesday", "wednesday", "thursday", "friday", "saturday", "sunday", "mittwoch"):
